@@ -232,6 +232,9 @@ pub struct Sim {
     pub counts: FaultCounts,
     pub fired_at: Option<(u64, Call, String)>,
     pub snap_all: bool,
+    /// when set, snapshots are taken only before these steps (traces with tens of thousands of
+    /// calls, e.g. the pre-created directory tree)
+    pub snap_steps: Option<BTreeSet<u64>>,
     pub snaps: Vec<Snap>,
     pub mon: Monitors,
     /// first harness error (unmodelled call etc.)
@@ -299,6 +302,7 @@ impl Sim {
             counts: FaultCounts::default(),
             fired_at: None,
             snap_all: false,
+            snap_steps: None,
             snaps: Vec::new(),
             mon: Monitors::default(),
             harness_error: None,
@@ -399,7 +403,7 @@ impl Sim {
     /// bookkeeping common to all mutating calls, *before* the call: number it, snapshot, decide fault
     fn pre_mut(&mut self, call: Call, rel: &str) -> Verdict {
         self.step += 1;
-        if self.snap_all {
+        if self.snap_all && self.snap_steps.as_ref().map_or(true, |s| s.contains(&self.step)) {
             self.snaps.push(Snap {
                 step: self.step,
                 op: self.cur_op,
